@@ -24,6 +24,13 @@ def monotone_cubic_down(rng, z, drop):
     for _ in range(200):
         a = rng.randint(0, drop)
         b = rng.randint(a, drop)
+        r = rng.random()
+        if r < 0.25:
+            a = 0                 # ease-in: zero vertical speed at the start
+        elif r < 0.5:
+            b = drop              # ease-out: zero vertical speed at the end
+        elif r < 0.6:
+            a, b = 0, drop        # both
         p = [z - a, z - b, z - drop]
         if well_conditioned_cubic(z, p):
             return p
